@@ -8,6 +8,7 @@ import (
 	"os"
 	"path/filepath"
 	"sort"
+	"strconv"
 	"strings"
 
 	"golang.org/x/tools/go/ssa"
@@ -427,6 +428,85 @@ func R19OpTable(c *Ctx) {
 								}
 							}
 						}
+					}
+				}
+			}
+		}
+		if !found {
+			// the node may be built by a helper that receives the operation: h(p, OpX) under `case TokenX`
+			for _, bb := range term.Blocks {
+				tok := ""
+				for _, fct := range FactsAt(bb) {
+					if bo, ok := fct.Cond.(*ssa.BinOp); ok && bo.Op == token.EQL && fct.Truth {
+						if k, ok := bo.Y.(*ssa.Const); ok && k.Value != nil {
+							tok = tokenConstName(c, k)
+						}
+					}
+				}
+				if tok != u.Token {
+					continue
+				}
+				for _, in := range bb.Instrs {
+					call, ok := in.(*ssa.Call)
+					if !ok {
+						continue
+					}
+					h := call.Call.StaticCallee()
+					if h == nil || h.Blocks == nil || FuncPkgPathOf(h) != PkgHclsyntax || h == term {
+						continue
+					}
+					// which parameter of h becomes UnaryOpExpr.Op, and is the node what h returns on every path?
+					opParam := -1
+					var node *ssa.Alloc
+					valOK := true
+					for _, hb := range h.Blocks {
+						for _, hin := range hb.Instrs {
+							st, ok := hin.(*ssa.Store)
+							if !ok {
+								continue
+							}
+							t, f, base, ok := FieldOf(st.Addr)
+							if !ok || !strings.HasSuffix(t, "hclsyntax.UnaryOpExpr") {
+								continue
+							}
+							if al, isAl := base.(*ssa.Alloc); isAl {
+								node = al
+							}
+							switch f {
+							case "Op":
+								for i, prm := range h.Params {
+									if st.Val == ssa.Value(prm) {
+										opParam = i
+									}
+								}
+							case "Val":
+								rv := valueRoots(st.Val, func(cl *ssa.Call) bool { return strings.Contains(CalleeName(cl), "hclsyntax.parser).") })
+								if len(rv.calls) != 1 {
+									valOK = false
+								}
+								for cl := range rv.calls {
+									if !strings.HasSuffix(CalleeName(cl), ".parseExpressionWithTraversals") {
+										valOK = false
+									}
+								}
+							}
+						}
+					}
+					if opParam < 0 || node == nil || opParam >= len(call.Call.Args) {
+						continue
+					}
+					found = true
+					returnsNode := true
+					for _, hb := range h.Blocks {
+						if ret, ok := hb.Instrs[len(hb.Instrs)-1].(*ssa.Return); ok && len(ret.Results) > 0 {
+							if !DerivesFromNarrowCalls(ret.Results[0], func(v ssa.Value) bool { return v == ssa.Value(node) }) {
+								returnsNode = false
+							}
+						}
+					}
+					rs := valueRoots(call.Call.Args[opParam], nil)
+					if rs.names["global:"+u.Op] && len(rs.names) == 1 && valOK && returnsNode {
+						good = true
 					}
 				}
 			}
@@ -1010,6 +1090,35 @@ func R19NumberExact(c *Ctx) {
 			}
 		})
 	}
+	// narrowing of a number inside the evaluator: the accuracy result must be looked at
+	for _, fn := range c.P.ModuleFuncs(func(p string) bool {
+		return p == PkgYaotl || p == PkgYaotl+"/hclsyntax" || p == PkgYaotl+"/json" || p == PkgYaotl+"/gohcl"
+	}) {
+		EachCall(fn, func(call ssa.CallInstruction) {
+			name := CalleeName(call)
+			switch name {
+			case "(*math/big.Float).Int64", "(*math/big.Float).Uint64", "(*math/big.Float).Float64", "(*math/big.Float).Float32", "(*math/big.Float).Int":
+			default:
+				return
+			}
+			v := call.Value()
+			if v == nil {
+				return
+			}
+			checked := false
+			for _, r := range *v.Referrers() {
+				if ex, ok := r.(*ssa.Extract); ok && ex.Index == 1 && len(*ex.Referrers()) > 0 {
+					checked = true
+				}
+			}
+			n++
+			if checked {
+				c.R.Ok(rule, FuncShort(fn), shortCallee(name)+"() with its accuracy tested", c.pos(call.Pos()), "the conversion's accuracy result is used", true)
+			} else {
+				c.R.Bad(rule, FuncShort(fn), shortCallee(name)+"() with its accuracy tested", c.pos(call.Pos()), "a number is narrowed and the accuracy result is thrown away: a fractional or out-of-range value silently becomes another number (an index 1.5 selects element 1 instead of being an error)")
+			}
+		})
+	}
 	if exact < 2 {
 		c.R.Anchor(rule, "the cty.ParseNumberVal calls of hclsyntax.numberLitValue and json.parseNumber")
 	}
@@ -1119,5 +1228,71 @@ func R19InnermostScope(c *Ctx) {
 	}
 	if n == 0 {
 		c.R.Anchor(rule, "a scope-chain walk with a lookup in yaotl")
+	}
+}
+
+// R19StripClass — all strip markers trim the same class of characters.
+func R19StripClass(c *Ctx) {
+	const rule = "R19-strip-class"
+	c.R.Rule(rule, "the trims that implement the strip markers (`~}` eats the leading, `${~` and `%{~` the trailing white space of the neighbouring literal) in hclsyntax.parser.parseTemplateParts (and helpers) all use the same character class — today strings.Trim{Left,Right}Func with unicode.IsSpace: a sibling that trims another class (a cutset of blanks, say) leaves newlines where the other marker removes them", 2)
+	fn := c.P.Func(PkgYaotl+"/hclsyntax", "parser.parseTemplateParts")
+	if fn == nil {
+		c.R.Anchor(rule, "hclsyntax.(*parser).parseTemplateParts")
+		return
+	}
+	type site struct {
+		class string
+		pos   token.Pos
+		name  string
+	}
+	var sites []site
+	for _, f := range HelperClosure(fn, 1) {
+		EachCall(f, func(call ssa.CallInstruction) {
+			name := CalleeName(call)
+			if !strings.HasPrefix(name, "strings.Trim") {
+				return
+			}
+			args := call.Common().Args
+			class := "?"
+			switch {
+			case strings.HasSuffix(name, "Func") && len(args) == 2:
+				if pf, ok := args[1].(*ssa.Function); ok {
+					class = "func:" + pf.String()
+				} else if mc, ok := args[1].(*ssa.MakeClosure); ok {
+					class = "closure:" + mc.Fn.String()
+				}
+			case name == "strings.TrimSpace":
+				class = "func:unicode.IsSpace" // same class by definition for valid UTF-8
+			case len(args) == 2:
+				if s, ok := ConstString(args[1]); ok {
+					class = "cutset:" + strconv.Quote(s)
+				}
+			}
+			sites = append(sites, site{class, call.Pos(), name})
+		})
+	}
+	if len(sites) < 2 {
+		c.R.Anchor(rule, "the strip-marker trims of parseTemplateParts")
+		return
+	}
+	count := map[string]int{}
+	for _, s := range sites {
+		count[s.class]++
+	}
+	major := ""
+	for k, v := range count {
+		if v > count[major] || (v == count[major] && k < major) {
+			major = k
+		}
+	}
+	ord := 0
+	for _, s := range sites {
+		ord++
+		construct := "strip-marker trim #" + itoa(ord)
+		if s.class == major {
+			c.R.Ok(rule, FuncShort(fn), construct, c.pos(s.pos), "trims "+s.class+" like its siblings", true)
+		} else {
+			c.R.Bad(rule, FuncShort(fn), construct, c.pos(s.pos), shortCallee(s.name)+" trims "+s.class+" while the other strip markers trim "+major+": the markers disagree about what white space is")
+		}
 	}
 }
